@@ -19,6 +19,8 @@ open Proto Pdf
              op = A<xs> (add_events) | R (reset);  ERR = constructor raises
       ttrials <box|gauss> <edges> <ts> <te> <sigma> <erfx> <erfy> <times>*  -> pd list per trial (one object)
       gcache <cacheOn 0|1> <trial ids> (<raw_k> <norm_k>)*       -> pd list per evaluation (MultiDimGridPDF pd cache)
+      eobj <kernel> <eE> <eD> <xs> <ys> <mcw> <pw> <op>*          -> per op: pd|ERR (G), v0|v1 (V), u (W); histogram PDF object
+             next to a caller that overwrites its edge arrays: W<eE>;<eD> | G<x>;<y> | V<x>;<y>
       colsum <kernel> <n>                                       -> column sums of the row-normalised smoothing matrix
       ginterp <ey> <ex> <grid row-major> <ys> <xs>                -> bilinear interpolant (fill 0) at the points
       gmcache <cacheOn> <k:mask,…> (<raw_k> <norm_k>)*           -> pd list per request (mask `*` = get_pd, 0/1 string = evt_mask)
@@ -139,6 +141,22 @@ def answer (line : String) : String :=
       let raw : Nat → List Float := fun k => tab.getD (2 * k) []
       let norm : Nat → List Float := fun k => tab.getD (2 * k + 1) []
       String.intercalate " " ((gRun (gEval (pB on) raw norm) ⟨none, none⟩ (pList pN ids)).map (fListD fF))
+  | "eobj" :: k :: eE :: eD :: xs :: ys :: ms :: ps :: ops =>
+      -- ops: W<eE>;<eD> (caller overwrites its edge arrays) | G<x>;<y> | V<x>;<y>
+      let evs := mkEvs (pList pF xs) (pList pF ys) (pList pF ms) (pList pF ps)
+      let w0 := eNew (pList pF k) (pList pF eE) (pList pF eD) evs
+      let parse (o : String) : EOp Float :=
+        let arg := (o.drop 1).toString
+        match arg.splitOn ";" with
+        | [a, b] =>
+          if o.startsWith "W" then .callerWrites (pList pF a) (pList pF b)
+          else if o.startsWith "G" then .get (pF a) (pF b)
+          else .valid (pF a) (pF b)
+        | _ => .valid 0.0 0.0
+      String.intercalate " " ((eRun false w0 (ops.map parse)).map (fun out => match out with
+        | .pd v => fO v
+        | .ok b => if b then "v1" else "v0"
+        | .unit => "u"))
   | ["colsum", k, n] =>
       let k := pList pF k
       fListD fF ((List.range (pN n)).map (colSum k (pN n)))
